@@ -363,3 +363,57 @@ def r8(cx):
         else:
             cx.violation(ck, "queued-path-as-given", "%s: the queued path is %s, not the path as handed over: GC asks the pin registry about a spelling no query ever pinned (e.g. a catalog path with a "
                          "leading slash), finds it unpinned and deletes a file a running query is reading" % (b.sp(bi, si), ("passed through %s" % calls) if calls else "not the `path` argument"), [b.sp(bi, si)])
+
+
+@rule("C09", "R9", "pins are counted symmetrically: ChunkPinRegistry::pin increments the count of EVERY element of the path list it was given (no element is skipped, e.g. as a duplicate), and "
+      "the guard it returns carries that same list, whose every element its Drop decrements - a count raised once and lowered twice releases another query's pin")
+def r9(cx):
+    fk = "compactor::pins::ChunkPinRegistry::pin"
+    b = cx.body(fk)
+    if b is None:
+        cx.violation(fk, "anchor-missing", "body not found", [])
+        return
+    incs = [bi for bi, t in b.calls() if re.search(r"Entry<.*>::or_insert$|Entry::<.*>::or_insert$|entry::Entry<'a, K, V(, A)?>::or_insert$", t["callee"]) or t["callee"].endswith("::or_insert")]
+    nexts = [bi for bi, t in b.calls() if t["callee"].endswith("::next")]
+    if not (cx.floor("count increments in pin", len(incs), 1, fk) and cx.floor("iterations in pin", len(nexts), 1, fk)):
+        return
+    skipped = []
+    for n in nexts:
+        o = M.operand_origins(b, b.term(n)["args"][0], at=(n, M.T))
+        if not any(x[0] in ("arg", "upvar") and (str(x[1]) in ("paths", "2")) for x in o):
+            continue
+        for (sb, tg) in M.outcome_edges(b, n)[0]:
+            if b.reaches(tg, n, removed_blocks=set(incs)) or tg == n:
+                skipped.append(n)
+    aggs = M.aggregates(b, lambda rv: rv.get("ak") == "adt" and (rv.get("adt") or "").endswith("PinGuard"))
+    same_list = False
+    for (bi, si, st) in aggs:
+        rv = st["rv"]
+        if "paths" in (rv.get("fields") or []):
+            o = M.operand_origins(b, rv["ops"][rv["fields"].index("paths")], at=(bi, si), adapters=frozenset())
+            same_list = any(x[0] in ("arg", "upvar") and str(x[1]) in ("paths", "2") and x[2] == "" for x in o) and not any(x[0] == "call" for x in o)
+    if skipped:
+        cx.violation(fk, "every-listed-path-is-counted", "%s: pin can pass over an element of its path list without raising that path's count, while the guard's Drop lowers it once per element: a "
+                     "query listing a chunk twice takes another query's pin away when it finishes, and GC deletes a file still being read" % b.sp(skipped[0]), [b.sp(skipped[0])])
+    elif not same_list:
+        cx.violation(fk, "every-listed-path-is-counted", "the guard returned by pin does not carry the very list whose elements were counted", [])
+    else:
+        cx.passed(fk, "every-listed-path-is-counted", [b.sp(incs[0])])
+    # Drop lowers every element
+    dk = [k for k in cx.prog.calls if re.search(r"<compactor::pins::PinGuard as std::ops::Drop>::drop$", k)]
+    for k in dk:
+        db = cx.body(k)
+        if db is None:
+            continue
+        dnexts = [bi for bi, t in db.calls() if t["callee"].endswith("::next")]
+        decs = [bi for bi, t in db.calls() if re.search(r"HashMap::<K, V, S(, A)?>::(get_mut|remove|entry)$", t["callee"])]
+        bad = []
+        for n in dnexts:
+            for (sb, tg) in M.outcome_edges(db, n)[0]:
+                if decs and db.reaches(tg, n, removed_blocks=set(decs)):
+                    bad.append(n)
+        if dnexts and decs and not bad:
+            cx.passed(k, "drop-lowers-every-element", [db.sp(decs[0])])
+        else:
+            cx.violation(k, "drop-lowers-every-element", "PinGuard::drop does not lower the count of every element of its list", [])
+    cx.floor("Drop impl of PinGuard", len(dk), 1)
